@@ -266,6 +266,7 @@ def run_check(prop: str, tier: str, seed: int, replay: str | None = None) -> int
     if replay:
         with open(replay) as f:
             w = json.load(f)
+        tier, seed = w.get('tier', tier), int(w.get('seed', seed))
         descs = [w['desc']] if 'desc' in w else mod.plan(tier, seed)
     else:
         descs = mod.plan(tier, seed)
